@@ -267,6 +267,11 @@ def optical(vc):
         geom_ok = True
         if "gal" in calls:
             geom_ok = geom_ok and bool(np.allclose(calls["gal"], (tgt - host.eci_state)[:3]))
+        if "space" in calls:
+            sun = np.array([1.5e8, 0.0, 0.0])
+            to_sun = (sun - tgt[:3]) / np.linalg.norm(sun - tgt[:3])
+            geom_ok = geom_ok and bool(np.allclose(np.asarray(calls["space"][0], dtype=float), (tgt - host.eci_state)[:3])) \
+                and bool(np.allclose(np.asarray(calls["space"][1], dtype=float), to_sun, atol=1e-12))  # direction target -> Sun, unit length
         if "limb" in calls:
             geom_ok = geom_ok and calls["limb"][0] is host.eci_state and calls["limb"][1] == "SEZ"
         if "ground" in calls:
